@@ -12,8 +12,8 @@ CLAIMED = {
    design="4 C03"),
  "C12": dict(
    technique="Coq proof by structural induction over terms (free symbols = textbook definition; coincidence lemma against the semantic domain; atoms truth-functionality; qf-ness; size definitions) + model/implementation correspondence on generated formulas + independent recursive definitions as oracle",
-   text="coq/props/C12.v: for every term, the modelled free-symbol set equals the declarative definition and the term's value (core/Sem.v) depends only on those symbols; the truth value of a quantifier-free Boolean term is a function of the values of the reported atoms; is_qf iff no quantifier node; tree size/leaves/depth against independent definitions. Models of all five oracles are compared with pysmt/oracles.py as sets/numbers on generated formulas of all theories.",
-   note="Trusted: Coq kernel, core/Sem.v (semantic specification; classical + real-number axioms of the standard library as reported by Print Assumptions), hand model tied by correspondence, tocoq.py. No declarative theorem yet for the sort set (correspondence + oracle only).",
+   text="coq/props/C12.v: for every term, the modelled free-symbol set equals the declarative definition and the term's value (core/Sem.v) depends only on those symbols; the truth value of a quantifier-free Boolean term is a function of the values of the reported atoms; is_qf iff no quantifier node; the reported sort set = the sorts occurring in the term closed under component sorts; tree size/leaves/depth against independent definitions. Models of all five oracles are compared with pysmt/oracles.py as sets/numbers on generated formulas of all theories.",
+   note="Trusted: Coq kernel, core/Sem.v (semantic specification; classical + real-number axioms of the standard library as reported by Print Assumptions), hand model tied by correspondence, tocoq.py.",
    design="4 C12"),
  "C13": dict(
    technique="Coq proof over definitions regenerated from logics.py (complete enumeration of the 1728 well-formed theories and the named tables by vm_compute; generic induction for logic selection) + model/implementation correspondence",
